@@ -128,15 +128,25 @@ func transportFor(ch int, ctl bool) string {
 }
 
 func runTear(fx *sl.Fixture, t tearCase) (res tearResult) {
+	var cl *sl.Conn
+	start := -1
 	defer func() {
 		if r := recover(); r != nil {
 			res.err = fmt.Sprint("harness panic: ", r)
+		}
+		if res.err != "" && cl != nil && start >= 0 {
+			// an unanswered request: keep what did arrive, the partial-stream verdict judges it
+			time.Sleep(grace)
+			if raw := cl.RawLog(); len(raw) >= start {
+				res.raw = raw[start:]
+			}
 		}
 	}()
 	fx.Ensure()
 	sl.WaitUntil(func() bool { return fx.Stream.ConsumerCount() == 0 })
 	c := sl.DialTCP(0)
 	defer c.Close()
+	cl = c
 	cseq := 0
 	// wait for the response with this CSeq; frames and other responses pass by
 	await := func(cs int) bool {
@@ -171,7 +181,7 @@ func runTear(fx *sl.Fixture, t tearCase) (res tearResult) {
 		res.err = "not consuming"
 		return
 	}
-	start := len(c.RawLog())
+	start = len(c.RawLog())
 	chans := [4]int{t.vch, -1, t.ach, -1}
 	if t.vctl {
 		chans[1] = t.vch + 1
@@ -610,6 +620,13 @@ func runC13(c *Ctx) {
 		c.CountN("tear-injected-requests", inj)
 		c.CountN("tear-stream-bytes", len(res.raw))
 		if res.err != "" {
+			if KV(outs[2*i])["partial"] == "torn-frame" {
+				// the run did not complete AND a complete frame on the wire is not a delivered packet
+				c.Find(Finding{Kind: "oracle", Class: "torn-frame:request-while-mid-frame", Case: t.line(),
+					Impl: fmt.Sprintf("%s; %d bytes received, %d frames delivered", res.err, len(res.raw), len(res.frames)), Spec: "torn-frame",
+					Detail: "stream=" + trunc(Hx(res.raw), 600)})
+				continue
+			}
 			c.Find(Finding{Kind: "corr", Class: "tear-harness", Case: t.line(), Impl: res.err})
 			continue
 		}
